@@ -695,6 +695,158 @@ pub fn wedge_case(label: &str, tier: &str, seed: u64, k: u64) -> Case {
     c
 }
 
+/// Zoom input: a compact, well separated group of generators (jittered grid of m^dim points, jitter half a spacing)
+/// whose spacing is 1e-8 .. 1e-4 of the box width, in a periodic or reflective box, placed in the middle of the box or
+/// across a wall / edge / corner (periodic: the group then straddles the periodic boundary and every close neighbour
+/// of half of its cells is a wrapped one), optionally with a few far background generators. The local geometry is
+/// ordinary; what is unusual is the ratio box width / spacing, at which quantities of the size W^2 and h^2 meet.
+///
+/// `hostile = false` (the conditioned domain): spacings down to 1e-8 widths in 1D, 1e-6 in 2D, 1e-5 in 3D. Below that the
+/// unchanged tree panics with finding F5 (survey of 20 000 inputs: 3D 48 % at 1e-6 .. 1e-8, 2D 0.4 % at 1e-7 and 15 % at
+/// 1e-8, 1D never): the absolute term of the float filter sends ordinary vertices to the exact path. `hostile = true` draws
+/// 1e-8 .. 1e-4 in every dimensionality (for monitors that do not construct cells, e.g. the visit sequence of C17).
+pub fn zoom_case(label: &str, tier: &str, seed: u64, k: u64, hostile: bool) -> Case {
+    let mut g = Rng::stream(&format!("{label}zoom"), &[crate::rng::mix(tier, &[]), seed, k]);
+    let dim = *g.pick(&[3usize, 3, 2, 2, 1]);
+    let scale = *g.pick(&[1., 1., 1e6, 1e-3]);
+    let asp = DVec3::from_array(*g.pick(&[[1., 1., 1.], [1., 1., 1.], [1., 0.37, 2.9]]));
+    let width = asp * scale;
+    let anchor = DVec3::from_array(*g.pick(&[[0., 0., 0.], [0., 0., 0.], [-0.5, -0.5, -0.5]])) * width;
+    let periodic = g.below(4) != 0;
+    let mut wmin = f64::INFINITY;
+    for ax in 0..dim {
+        wmin = wmin.min(width[ax]);
+    }
+    let rel = *g.pick(&[1e-8, 1e-8, 3e-8, 1e-7, 1e-6, 1e-4]);
+    let h = wmin * rel;
+    let m = match dim {
+        1 => 10 + g.below(150),
+        2 => 4 + g.below(14),
+        _ => 3 + g.below(5),
+    };
+    // centre of the group in units of the width, per axis: the middle, a wall (periodic: straddling), or anywhere
+    let mut centre = DVec3::ZERO;
+    for ax in 0..3 {
+        // (reflective boxes: the group stays inside, generators exactly on a wall are finding F9)
+        let f = match (g.below(4), periodic) {
+            (0, _) => 0.5,
+            (1, true) => 0.,
+            (2, true) => 1.,
+            (_, true) => g.f(),
+            (_, false) => 0.1 + 0.8 * g.f(),
+        };
+        centre[ax] = anchor[ax] + f * width[ax];
+    }
+    let mm = [m, if dim >= 2 { m } else { 1 }, if dim >= 3 { m } else { 1 }];
+    let mut pts = vec![];
+    for i in 0..mm[0] {
+        for j in 0..mm[1] {
+            for l in 0..mm[2] {
+                let idx = [i, j, l];
+                let mut p = DVec3::ZERO;
+                for ax in 0..3 {
+                    if ax < dim {
+                        let q = (idx[ax] as f64 + 0.5 + 0.5 * (g.f() - 0.5) - 0.5 * mm[ax] as f64) * h;
+                        let mut x = centre[ax] + q;
+                        if periodic {
+                            if x < anchor[ax] {
+                                x += width[ax];
+                            }
+                            if x >= anchor[ax] + width[ax] {
+                                x -= width[ax];
+                            }
+                        }
+                        p[ax] = x.clamp(anchor[ax], anchor[ax] + width[ax]);
+                    } else {
+                        p[ax] = anchor[ax] + g.f() * width[ax];
+                    }
+                }
+                pts.push(p);
+            }
+        }
+    }
+    // graded surroundings, as in a zoom simulation: shells of generators around the group whose radius (and spacing)
+    // grows geometrically until the box is filled. Without them the cells on the rim of the group reach half a box width
+    // into empty space and end in vertices cut out by planes that are parallel within h / W - the regime of finding F5
+    // (survey: 25 % panics in 3D at h = 1e-5 W). `hostile` inputs come with and without.
+    let graded = !hostile || g.bool();
+    if graded {
+        let per_shell = match dim {
+            1 => 2,
+            2 => 14,
+            _ => 44,
+        };
+        let mut rad = 0.5 * (m as f64) * h * (dim as f64).sqrt() + 0.8 * h;
+        let grow = match dim {
+            1 => 1.5,
+            2 => 1.45,
+            _ => 1.5,
+        };
+        let mut first = true;
+        while rad < 0.7 * wmin {
+            for q in 0..per_shell {
+                let mut dir = DVec3::ZERO;
+                loop {
+                    for ax in 0..dim {
+                        dir[ax] = g.gauss();
+                    }
+                    if dir.length() > 1e-3 {
+                        break;
+                    }
+                }
+                if dim == 1 {
+                    dir = DVec3::new(if q == 0 { 1. } else { -1. }, 0., 0.);
+                }
+                let rr = rad * (1. + 0.12 * (g.f() - 0.5)) * if first { 1. } else { 1. + 0.2 * (g.f() - 0.5) };
+                let mut p = centre + dir / dir.length() * rr;
+                let mut inside = true;
+                for ax in 0..3 {
+                    if ax >= dim {
+                        p[ax] = anchor[ax] + 0.5 * width[ax];
+                        continue;
+                    }
+                    if periodic {
+                        // at most one wrap: farther points would come back onto nearer shells
+                        if p[ax] < anchor[ax] {
+                            p[ax] += width[ax];
+                        } else if p[ax] >= anchor[ax] + width[ax] {
+                            p[ax] -= width[ax];
+                        }
+                        // keep the far shells (which overlap their own images) out of the half of the box that is already covered
+                        if rr > 0.5 * width[ax] {
+                            inside = false;
+                        }
+                    }
+                    if !(p[ax] > anchor[ax] && p[ax] < anchor[ax] + width[ax]) {
+                        inside = false;
+                    }
+                }
+                if inside {
+                    pts.push(p);
+                }
+            }
+            first = false;
+            rad *= grow;
+        }
+    }
+    let nbg = *g.pick(&[0usize, 3, 10]);
+    for _ in 0..nbg {
+        pts.push(anchor + DVec3::new(g.f(), g.f(), g.f()) * width);
+    }
+    let mut c = Case {
+        family: "zoom".into(),
+        dim,
+        periodic,
+        anchor,
+        width,
+        pts,
+        mask: None,
+        origin: format!("{label}zoom/{tier}/seed{seed}/case{k}"),
+    };
+    c.dedup();
+    c
+}
+
 /// Generate one case of an explicit family (used for the corpus and the hostile exploration).
 pub fn gen_family_case(label: &str, family: &str, seed: u64, k: u64, dim: usize, periodic: bool, n: usize) -> Case {
     gen_family_case_in(label, family, seed, k, dim, periodic, n, BoxKind::Random)
